@@ -2362,7 +2362,7 @@ func (c *Client) doRecord() (*base.Response, error) {
 		return nil, err
 	}
 
-	if c.setuppedTransport == nil {
+	if len(c.setuppedMedias) == 0 {
 		return nil, fmt.Errorf("no medias have been setupped")
 	}
 
